@@ -49,6 +49,48 @@ theorem C08_l2b_b2l (d : Bytes) : natToBytes (bytesToNat d) = d.dropWhile (· = 
 /-- `bytes_to_long(long_to_bytes(n)) = n` (what makes sending `A`, `B` in minimal form lossless). -/
 theorem C08_b2l_l2b (n : Nat) : bytesToNat (natToBytes n) = n := b2l_l2b n
 
+/-! ### byte-level facts at full generality: padding, minimal form, the integer session key -/
+
+/-- `_padN` never changes the value and never truncates: `bytes_to_long(PAD(d)) = bytes_to_long(d)`,
+    `len(PAD(d)) = max(N_len/8, len(d))` — for every byte string. -/
+theorem C08_pad_value_length (G : Group) (d : Bytes) :
+    bytesToNat (padN G d) = bytesToNat d ∧ (padN G d).length = max (G.nLen / 8) d.length :=
+  ⟨bytesToNat_rjust _ d, rjust_length _ d⟩
+
+/-- `long_to_bytes` emits the minimal form (no leading zero byte), a value below `256^w` fits in `w`
+    bytes (so `PAD` of `A`, `B < N < 256^384` has exactly 384 bytes, however many leading zero bytes the
+    value has), and `PAD` is injective on minimal forms (the `u = H(PAD A ‖ PAD B)` both sides hash is
+    determined by the VALUES `A`, `B`). -/
+theorem C08_minimal_form (n m w : Nat) :
+    (natToBytes n).head? ≠ some 0 ∧
+    (n < 256 ^ w → (natToBytes n).length ≤ w ∧ (rjust w (natToBytes n)).length = w) ∧
+    (rjust w (natToBytes m) = rjust w (natToBytes n) → m = n) := by
+  refine ⟨natToBytes_minimal n, ?_, rjust_natToBytes_inj w m n⟩
+  intro h
+  have hl := natToBytes_length_le n w h
+  exact ⟨hl, by rw [rjust_length]; omega⟩
+
+/-- The functions of `hsrp.Server` that have no caller of their own in the model, under their own names:
+    the constructor's `v`, `B` are `_get_verifier()`, `_derive_B()`; M2 carries
+    `long_to_bytes(get_challenge()[1]) = Bb`; after `set_A`, `HAMK = _get_HAMK()`,
+    `get_session_key_bytes()` is the digest `H(Sb)` itself, `get_session_key() = _get_K()` is its integer
+    value.  (Each is also called on the real object and compared in the numeric stream.) -/
+theorem C08_hsrp_named (H : Bytes → Bytes) (G : Group) (I p s Ab : Bytes) (b : Nat) :
+    let srv := Srp.mk H G I p s b
+    srv.v = getVerifier H G s I p ∧ srv.B = deriveB G (multK H G) (getVerifier H G s I p) b ∧
+    natToBytes srv.getChallenge.2 = srv.Bb ∧ srv.getChallenge.1 = s ∧
+    (mkSess H srv Ab).HAMK = getHAMK H Ab (mkSess H srv Ab).M (mkSess H srv Ab).Kb ∧
+    (setA H srv Ab).sessionKeyBytes = some (H (mkSess H srv Ab).Sb) ∧
+    (setA H srv Ab).sessionKey = some (getK H (mkSess H srv Ab).Sb) :=
+  ⟨rfl, rfl, rfl, rfl, rfl, rfl, rfl⟩
+
+/-- The integer session key loses exactly the leading zero bytes of the digest — for every hash, code,
+    salt, secrets and `A`: `long_to_bytes(get_session_key()) = get_session_key_bytes().lstrip(0)`.  Hence the
+    handler must feed `get_session_key_bytes()` to HKDF (it does: `C08_complete`). -/
+theorem C08_integer_session_key (H : Bytes → Bytes) (srv : Server) (Ab : Bytes) :
+    natToBytes (mkSess H srv Ab).K = (mkSess H srv Ab).Kb.dropWhile (· = 0) :=
+  sessionKey_bytes H srv Ab
+
 /-- Why the shipped code fails: its `Kb = long_to_bytes(int(H(Sb)))` equals the digest `H(Sb)` that the
     controller uses **iff** the digest does not begin with a zero byte. -/
 theorem C08_legacy_Kb_iff (H : Bytes → Bytes) (srv : Server) (Ab : Bytes) :
